@@ -61,7 +61,9 @@ def gen_val(rng, depth, p_unsafe, p_bad, dyn=True):
     if dyn and r < 0.48 + 0.03 * p_bad:
         return Sempty('required')
     if depth <= 0 or r < 0.72:
-        return S(rng.choice([0, 1, 12, 'p', 'q', True, None, 1.5]), kw=kw)
+        # plain strings that NAME a callable too: merged onto a !call / !bind node they re-target it (seeded change S5-C07: an unsafe
+        # string must hand its unsafety to the function node it renames)
+        return S(rng.choice([0, 1, 12, 'p', 'q', True, None, 1.5, 'rec.g', 'rec.f', 'rec.g']), kw=kw)
     if r < 0.84:
         items = [gen_val(rng, depth - 1, p_unsafe, p_bad) for _ in range(rng.choice([0, 1, 2, 3]))]
         if dyn and rng.random() < P_OPS:
